@@ -359,6 +359,10 @@ def run(w, fn, x, driver=None, flags=frozenset(), split=None):
         d = {"n": 1}
         args.append(d)
     before = w.snapshot_globals()
+    poke = getattr(w.f, "POKE", None)
+    if poke is not None:
+        # the enclosing scope rebinds the closure variable after f was defined (and instrumented)
+        poke(11)
     try:
         r = fn(*args, **kwargs)
         if isinstance(r, types.GeneratorType):
@@ -379,12 +383,13 @@ def run(w, fn, x, driver=None, flags=frozenset(), split=None):
         ("d", freeze(d)) if d is not None else None,
         ("G", freeze(w.ns.get("G"))),
         w.globals_diff(before),
+        ("cell", freeze(w.f.PEEK())) if poke is not None else None,
     )
     return obs
 
 
 def first_difference(a, b):
-    labels = ["result", "effect-log", "arg o", "arg d", "global G", "module globals"]
+    labels = ["result", "effect-log", "arg o", "arg d", "global G", "module globals", "closure variable as seen by a sibling closure"]
     for lab, x, y in zip(labels, a, b):
         if x != y:
             if lab == "effect-log":
